@@ -96,8 +96,16 @@ class Mailbox:
         return len(self._listeners)
 
     def broadcast_message(self, sm):
-        for (send_f, stop_f) in self._listeners.values():
-            send_f(sm)
+        for (send_f, stop_f) in list(self._listeners.values()):
+            try:
+                send_f(sm)
+            except Exception:
+                # A listener whose connection is shutting down (its transport
+                # raises while its close handshake is in progress) must not
+                # keep the message from the other listeners, nor fail the
+                # add of the client who sent it: that listener is about to
+                # be removed by its own onClose.
+                log.msg("unable to deliver message to a listener, skipping it")
 
     def _add_message(self, sm):
         self._db.execute("INSERT INTO `messages`"
